@@ -235,8 +235,13 @@ func resJobH(j varmq.EnqueuedResultJob[int]) *jobH {
 
 func bindPlain(env *Env, w varmq.IWorkerBinder[Payload], kind string, idx int, shared *recCore) *qh {
 	switch kind {
-	case "std":
-		q := w.BindQueue()
+	case "std", "wstd":
+		var q varmq.Queue[Payload]
+		if kind == "wstd" {
+			q = w.WithQueue(newAckMem(env))
+		} else {
+			q = w.BindQueue()
+		}
 		return &qh{kind: kind,
 			add: func(p Payload, prio int, id string) (*jobH, bool) {
 				j, ok := q.Add(p, jobOpts(id)...)
@@ -318,8 +323,13 @@ func bindErr(env *Env, w varmq.IErrWorkerBinder[Payload], kind string) *qh {
 		return &groupH{n: n, npend: g.NumPending, wait: g.Wait, errs: g.Errs, drain: g.Drain}
 	}
 	switch kind {
-	case "std":
-		q := w.BindQueue()
+	case "std", "wstd":
+		var q varmq.ErrQueue[Payload]
+		if kind == "wstd" {
+			q = w.WithQueue(newAckMem(env))
+		} else {
+			q = w.BindQueue()
+		}
 		return &qh{kind: kind,
 			add: func(p Payload, prio int, id string) (*jobH, bool) {
 				j, ok := q.Add(p, jobOpts(id)...)
@@ -351,8 +361,13 @@ func bindRes(env *Env, w varmq.IResultWorkerBinder[Payload, int], kind string) *
 		return &groupH{n: n, npend: g.NumPending, wait: g.Wait, results: g.Results, drain: g.Drain}
 	}
 	switch kind {
-	case "std":
-		q := w.BindQueue()
+	case "std", "wstd":
+		var q varmq.ResultQueue[Payload, int]
+		if kind == "wstd" {
+			q = w.WithQueue(newAckMem(env))
+		} else {
+			q = w.BindQueue()
+		}
 		return &qh{kind: kind,
 			add: func(p Payload, prio int, id string) (*jobH, bool) {
 				j, ok := q.Add(p, jobOpts(id)...)
@@ -378,3 +393,69 @@ func bindRes(env *Env, w varmq.IResultWorkerBinder[Payload, int], kind string) *
 	}
 	panic("bad queue kind for res worker " + kind)
 }
+
+// ---------------------------------------------------------------------------
+// ackMem: a user-supplied in-memory FIFO adapter for WithQueue (queue kind "wstd") that also
+// implements IAcknowledgeable, as a bounded or instrumented user queue might. The jobs stay
+// in-memory handles; the library hands out ack ids but (for in-memory jobs) never acknowledges.
+// The k-th Acknowledge call is refused when the case's fault plan says so.
+
+type ackMem struct {
+	env      *Env
+	items    []any
+	unacked  map[string]bool
+	ackSeq   int
+	ackCalls int
+	closed   bool
+}
+
+func newAckMem(env *Env) *ackMem { return &ackMem{env: env, unacked: map[string]bool{}} }
+
+func (a *ackMem) Len() int { vrt.Point("wq.Len"); return len(a.items) }
+func (a *ackMem) Enqueue(item any) bool {
+	vrt.Point("wq.Enqueue")
+	if a.closed {
+		return false
+	}
+	a.items = append(a.items, item)
+	return true
+}
+func (a *ackMem) Dequeue() (any, bool) {
+	vrt.Point("wq.Dequeue")
+	if len(a.items) == 0 {
+		return nil, false
+	}
+	it := a.items[0]
+	a.items = a.items[1:]
+	return it, true
+}
+func (a *ackMem) DequeueWithAckId() (any, bool, string) {
+	it, ok := a.Dequeue()
+	if !ok {
+		return nil, false, ""
+	}
+	a.ackSeq++
+	id := fmt.Sprintf("wack-%d", a.ackSeq)
+	a.unacked[id] = true
+	return it, true, id
+}
+func (a *ackMem) Acknowledge(id string) bool {
+	vrt.Point("wq.Acknowledge")
+	a.ackCalls++
+	for _, f := range a.env.c.Faults {
+		if f.Method == "Acknowledge" && f.K == a.ackCalls {
+			return false
+		}
+	}
+	if !a.unacked[id] {
+		return false
+	}
+	delete(a.unacked, id)
+	return true
+}
+func (a *ackMem) Values() []any { vrt.Point("wq.Values"); return append([]any(nil), a.items...) }
+func (a *ackMem) Purge()        { vrt.Point("wq.Purge"); a.items = nil }
+func (a *ackMem) Close() error  { vrt.Point("wq.Close"); a.closed = true; return nil }
+
+// isMemKind: queue kinds whose jobs are in-memory handles (Add returns a handle, AddAll exists).
+func isMemKind(k string) bool { return k == "std" || k == "prio" || k == "wstd" }
